@@ -162,7 +162,9 @@ def bj_programs(rng, n):
         r = rng.fork(f"bj_{i}")
         p = {"rels": [{"arity": 2}, {"arity": 2}, {"arity": 3}, {"arity": 2}], "macros": [], "rules": []}
         c = r.range(0, 3)
-        binder = [("for", 9, ("list", [c, c + 1])), ("let", 9, c), ("iflet", 9, ("somex", c)), ("for", 9, ("range", 0, 2))][i % 4]
+        # (the fifth kind of binder: an aggregation whose RESULT variable the second clause repeats - `agg z = max(w) in foo(_, w), foo(x, y), bar(y, z)`)
+        binder = [("for", 9, ("list", [c, c + 1])), ("let", 9, c), ("iflet", 9, ("somex", c)), ("for", 9, ("range", 0, 2)),
+                  ("agg", [9], r.choice(["max", "min"]), [20], 1, ["_", ("b", 20)] if i % 2 else [("b", 20), "_"])][i % 5]
         second = [("v", 1), ("v", 9)] if i % 3 else [("v", 9), ("v", 1)]
         p["rules"].append({"heads": [(2, [("var", 0), ("var", 1), ("var", 9)])], "body": [binder, ("cl", 0, [("v", 0), ("v", 1)], []), ("cl", 1, second, [])]})
         p["rules"].append({"heads": [(3, [("var", 0), ("var", 2)])], "body": [("cl", 2, [("v", 0), ("_",), ("v", 2)], [])]})
@@ -235,7 +237,7 @@ def build(rng, tier):
             inp[3] = []; inp[4] = []
             inputs.append(inp)
         add(f"n{i}", p, q, "f9-stream", inputs, cls="F9" if f9_sites(p) else None, bug=lambda inp, p=p: f9_bugspec(p, inp))
-    for i, p in enumerate(bj_programs(rng.fork("bj"), 4 if quick else 12)):
+    for i, p in enumerate(bj_programs(rng.fork("bj"), 5 if quick else 15)):
         q = S.expand_spec(p)
         inputs = [bj_input(rng.fork(f"bj_{i}i{j}")) for j in range(6 if quick else 16)]
         add(f"b{i}", p, q, "binder-join-stream", inputs)
